@@ -85,13 +85,14 @@ pub open spec fn reach<M: Model>(m: M, s: M::State) -> bool { exists|n: nat| rea
 
 // A-FP: `fingerprint` is a deterministic function of the state.  Collision freedom is NOT an axiom:
 // contracts that need it say `fp_injective_on(..)` explicitly.
-pub uninterp spec fn fp<S>(s: S) -> Fingerprint;
+// (named `fp_of` because /repo uses `fp` as a parameter name)
+pub uninterp spec fn fp_of<S>(s: S) -> Fingerprint;
 pub open spec fn fp_injective_on<S>(dom: Set<S>) -> bool {
-    forall|a: S, b: S| dom.contains(a) && dom.contains(b) && fp(a) == fp(b) ==> a == b
+    forall|a: S, b: S| dom.contains(a) && dom.contains(b) && fp_of(a) == fp_of(b) ==> a == b
 }
 #[verifier::external_body]
 pub fn fingerprint<T: Hash>(value: &T) -> (f: Fingerprint)
-    ensures f == fp(*value)
+    ensures f == fp_of(*value)
 { unimplemented!() }
 
 // ---- R7 / A-SEQ: `&DashMap<K, V, _>` becomes `&mut SeqMap<K, V>` (`&SeqMap` where only read): a plain
@@ -192,15 +193,18 @@ pub mod id_set {
 spec fn path_states<S, A>(p: Path<S, A>) -> Seq<S> { Seq::new(p.0@.len(), |i: int| p.0@[i].0) }
 
 // fps is the fingerprint sequence of the state sequence ss
-pub open spec fn fps_of<S>(ss: Seq<S>, fps: Seq<Fingerprint>) -> bool {
-    ss.len() == fps.len() && forall|i: int| 0 <= i < ss.len() ==> fp(#[trigger] ss[i]) == fps[i]
+pub open spec fn has_fps<S>(ss: Seq<S>, fps: Seq<Fingerprint>) -> bool {
+    ss.len() == fps.len() && forall|i: int| 0 <= i < ss.len() ==> fp_of(#[trigger] ss[i]) == fps[i]
+}
+// t is a successor of s (boundary not considered)
+pub open spec fn is_step<M: Model>(m: M, s: M::State, t: M::State) -> bool {
+    exists|a: M::Action| #[trigger] m.acts(s).contains(a) && m.nxt(s, a) == Some(t)
 }
 // ss starts in an initial state (boundary NOT required by from_fingerprints) and follows transitions
 pub open spec fn is_chain<M: Model>(m: M, ss: Seq<M::State>) -> bool {
     &&& ss.len() > 0
     &&& m.inits().contains(ss[0])
-    &&& forall|i: int| 0 <= i < ss.len() - 1 ==>
-            exists|a: M::Action| #[trigger] m.acts(ss[i]).contains(a) && m.nxt(ss[i], a) == Some(ss[i + 1])
+    &&& forall|i: int| 0 <= i < ss.len() - 1 ==> is_step(m, #[trigger] ss[i], ss[i + 1])
 }
 
 // `Path::from_fingerprints` is verified in unit PATH; here it is an external function with the
@@ -212,10 +216,10 @@ impl<State, Action> Path<State, Action> {
     fn from_fingerprints<M>(model: &M, fingerprints: VecDeque<Fingerprint>) -> (p: Self)
         where M: Model<State = State, Action = Action>, M::State: Hash
         requires
-            exists|ss: Seq<State>| is_chain(*model, ss) && #[trigger] fps_of(ss, fingerprints@),
+            exists|ss: Seq<State>| is_chain(*model, ss) && #[trigger] has_fps(ss, fingerprints@),
         ensures
             is_chain(*model, path_states(p)),
-            fps_of(path_states(p), fingerprints@),
+            has_fps(path_states(p), fingerprints@),
             forall|i: int| 0 <= i < p.0@.len() - 1 ==> (#[trigger] p.0@[i]).1.is_some()
                 && model.acts(p.0@[i].0).contains(p.0@[i].1.unwrap())
                 && model.nxt(p.0@[i].0, p.0@[i].1.unwrap()) == Some(p.0@[i + 1].0),
